@@ -5,6 +5,7 @@ import (
 	"net"
 	"sort"
 	"strconv"
+	"sync"
 	"testing"
 	"testing/synctest"
 	"time"
@@ -51,7 +52,8 @@ type pppoeSys struct {
 	// (add-only seam), so that low ids handed out before are still alive when the counter wraps.
 	presetAfter int
 	presetTo    uint16
-	viols   []explore.Viol
+	viols       []explore.Viol
+	bk          sync.Mutex // harness bookkeeping only (free-running -race pass)
 }
 
 func newPppoeSys(startID uint16, maxNew int) *pppoeSys {
@@ -97,22 +99,31 @@ func (s *pppoeSys) v(kind, site, f string, a ...any) {
 func (s *pppoeSys) applyRaw(name string, args []string) string {
 	switch name {
 	case "Create":
+		s.bk.Lock()
 		s.creates++
+		s.bk.Unlock()
 		sess, err := s.m.CreateSession(pMACs[args[0]], pServerMAC)
 		if err != nil {
 			return "err"
 		}
-		if s.presetAfter > 0 && s.creates == s.presetAfter {
+		s.bk.Lock()
+		c := s.creates
+		s.bk.Unlock()
+		if s.presetAfter > 0 && c == s.presetAfter {
 			s.m.VerifC20SetNextID(s.presetTo)
 		}
+		s.bk.Lock()
 		s.handed = append(s.handed, sess)
+		s.bk.Unlock()
 		return "created" // the id depends on the schedule; it is checked, not logged
 	case "Remove":
 		id, _ := strconv.Atoi(args[0])
+		s.bk.Lock()
 		if s.removed == nil {
 			s.removed = map[uint16]bool{}
 		}
 		s.removed[uint16(id)] = true
+		s.bk.Unlock()
 		s.m.RemoveSession(uint16(id))
 		return "ok"
 	}
